@@ -88,7 +88,9 @@ def spec_wg(tier):
     if tier != "quick":
         mc.append(("WaitGroup_MC3.cfg", 12, 3000, "WaitGroup: up to 3 sources / 2 waiters incl. two coroutines and timed + coroutine"))
     return ConcSpec(
-        name="WaitGroup", scenario="wg", grid=grid, inv_props={}, primary="C16",
+        name="WaitGroup", scenario="wg", grid=grid, primary="C16",
+        inv_props={"NoRace": ("C16", "C04"), "OwnershipOK": ("C16", "C03"), "ConsumedOnce": ("C16", "C03"),
+                   "ConsumedAtQuiescence": ("C16", "C03"), "HeapWaiterReleased": ("C16", "C03")},
         mc_cfgs=mc, paths_cfg=None,
         dfs_max=1200 if tier == "quick" else 8000, preempt=2 if tier == "quick" else 3,
         rand_execs=150 if tier == "quick" else 2500, rand_grid=rand,
@@ -112,7 +114,7 @@ def spec_comutex(tier):
         mc.append(("CoMutex_MC3.cfg", 12, 3000, "CoMutex: 3 coroutines, 4 option sets, 2 workers"))
         mc.append(("CoMutex_Live.cfg", 4, 1800, "CoMutex: every request is eventually granted under weak fairness of the workers"))
     return ConcSpec(
-        name="CoMutex", scenario="cm", grid=grid, inv_props={}, primary="C14",
+        name="CoMutex", scenario="cm", grid=grid, inv_props={"NoRace": ("C14", "C04")}, primary="C14",
         mc_cfgs=mc, paths_cfg=None,
         dfs_max=600 if tier == "quick" else 6000, preempt=2 if tier == "quick" else 3,
         rand_execs=100 if tier == "quick" else 2000, rand_grid=rand,
@@ -137,7 +139,7 @@ def spec_cosmutex(tier):
     if tier != "quick":
         mc.append(("CoSharedMutex_P2.cfg", 14, 3000, "CoSharedMutex protocol only: 2 rounds per coroutine"))
     return ConcSpec(
-        name="CoSharedMutex", scenario="sm", grid=grid, inv_props={}, primary="C15",
+        name="CoSharedMutex", scenario="sm", grid=grid, inv_props={"NoRace": ("C15", "C04")}, primary="C15",
         mc_cfgs=mc, paths_cfg=None,
         dfs_max=600 if tier == "quick" else 6000, preempt=2 if tier == "quick" else 3,
         rand_execs=100 if tier == "quick" else 2000, rand_grid=rand,
@@ -157,12 +159,18 @@ def spec_await(tier):
         grid.append({"form": form, "n": "1", "outs": "v", "exec": "stop"})
         grid.append({"form": form, "n": "2", "outs": "vx", "exec": "stop"})
         grid.append({"form": form, "n": "2", "outs": "vv", "exec": "stop", "dyn": "1"})
+    # awaiting a SharedFuture from one and from two coroutines: abstract monitors only (see Await_Trace.Modelled)
+    for outs in ("v", "x"):
+        grid.append({"form": "sfut", "n": "1", "outs": outs})
+        grid.append({"form": "sfut", "n": "1", "outs": outs, "k": "2"})
     return ConcSpec(
-        name="Await", scenario="aw", grid=grid, inv_props={}, primary="C13",
+        name="Await", scenario="aw", grid=grid, primary="C13",
+        inv_props={"NoRace": ("C13", "C04"), "EndState": ("C13", "C03"), "AbsEnd": ("C13", "C03")},
         mc_cfgs=[("Await_MC.cfg", 8, 600, "Await: {co_await, Await, AwaitSticky, AwaitOn} x 1-2 futures x outcomes x "
                   "{accepting, rejecting executor}, all interleavings")],
-        paths_cfg=None, dfs_max=3000, preempt=None if tier != "quick" else 3,
-        rand_execs=0, rand_grid=[], scen_keys=["form", "n", "outs", "exec", "dyn"], trace_timeout=1500)
+        paths_cfg="Await_paths.cfg", paths_max=3000 if tier == "quick" else 40000, replay_logical=("cnt",), replay_skip_none=True,
+        dfs_max=3000, preempt=None if tier != "quick" else 3,
+        rand_execs=0, rand_grid=[], scen_keys=["form", "n", "outs", "exec", "dyn", "k"], trace_timeout=1500)
 
 
 ALL_STRATS = ["all_none", "all_ff", "join_none", "join_ff"]
@@ -172,6 +180,8 @@ ANY_STRATS = ["any_none", "any_ff", "any_lf"]
 def spec_when(tier, strats, primary):
     outs2 = ["vv", "vx", "xv", "xx", "ex"]
     grid = [{"strat": s, "form": f, "outs": o} for s in strats for f in ("static", "dynamic") for o in outs2]
+    # three inputs of the same kind, bounded DFS: a decision that must survive a third completion (latched flags, counters)
+    grid += [{"strat": s, "form": "dynamic", "outs": o} for s in strats for o in ("vvv", "xxx")]
     rand = [{"strat": s, "form": f, "outs": o} for s in strats for f in ("static", "dynamic") for o in ("xvx", "xxx", "vxv", "exv")]
     mc = [("When_MC.cfg", 8, 900, "When: 7 strategies x 5 outcome patterns, n = 2, all interleavings with registration")]
     if tier != "quick":
@@ -278,7 +288,8 @@ def c13(rep, tier, seed):
     run_conc(rep, spec_await(tier), tier, seed, {"C13"})
     rep.assumptions += ["one coroutine awaiting 1-2 unique futures (co_await Future, Await, AwaitSticky, AwaitOn; static and "
                         "iterator forms); executor of sticky / on: runs the job where it is submitted, or rejects (Drop); "
-                        "SharedFuture awaiting, Task awaiting and Yield are covered by the compile probe only"]
+                        "awaiting a SharedFuture (1 and 2 coroutines on the same one): all schedules, judged by the abstract "
+                        "monitors only; Task awaiting and Yield: compile probe only"]
 
 
 @check("C14")
@@ -353,10 +364,24 @@ def c17(rep, tier, seed):
                         "run is observed through the YACLIB_VERIF observation hooks (draws, picks, resumptions, injected yields)"]
 
 
+def _lite(spec, tier):
+    """reduced run of a specification for the library-wide properties C03 / C04 (its own property runs it in full)"""
+    if tier == "quick":
+        spec.grid = spec.grid[::3]
+        spec.dfs_max = min(spec.dfs_max, 300)
+        spec.rand_execs = 0
+        spec.rand_grid = []
+        spec.tail_execs = 10
+        spec.mc_cfgs = list(spec.mc_cfgs)[:1]
+    return spec
+
+
 def all_conc_specs(tier):
     """every concurrent specification that carries ownership ghost state and a MemModel instance"""
     return [spec_unique(tier), spec_shared(tier), spec_wait(tier), spec_when(tier, ALL_STRATS + ANY_STRATS, "C09"),
-            spec_strand(tier), spec_pool(tier)]
+            spec_strand(tier), spec_pool(tier),
+            _lite(spec_wg(tier), tier), _lite(spec_comutex(tier), tier), _lite(spec_cosmutex(tier), tier),
+            _lite(spec_await(tier), tier)]
 
 
 @check("C03")
